@@ -426,9 +426,9 @@ def runBlocking (line : String) : String :=
       let rxn := match rx with | .live => "live" | .stalled => "stalled" | .gone => "gone" | .late => "late" | .refill => "refill" | .hangup => "hangup"
       let sig := s!"{pathName path},{op},rx={rxn}"
       -- the counters after a send: truncations come from the prefill alone, blocked = the first attempt failed
-      -- (against a live receiver with a full queue that depends on thread scheduling: `b=?`)
+      -- (against a live / late receiver thread with a full queue that depends on thread scheduling: `b=?`)
       let (mt, mb) := blockingSendCounters cfg rx prefill 999
-      let cnt := s!",t={mt},b=" ++ (if rx = .live ∧ prefill ≥ cap then "?" else toString mb)
+      let cnt := s!",t={mt},b=" ++ (if (rx = .live ∨ rx = .late) ∧ prefill ≥ cap then "?" else toString mb)
       if (api = .async ∧ ctx ≠ .tokioCurrentThread) ∨ (rx = .hangup ∧ (api ≠ .async ∨ op ≠ "flush")) then "bad-op"
       else if rx = .refill ∧ (op ≠ "send" ∨ prefill < cap ∨ timeout < 200 ∨ timeout > 5000) then "bad-op"
       else if pathPanics path ctx then s!"panic\t{sig}"
